@@ -88,7 +88,13 @@ func (vc *VC) solveAll(outDir string, timeoutS int, par int, strict bool) {
 				smt += "(get-model)\n"
 			}
 			os.WriteFile(file, []byte(smt), 0o644)
+			o.SMTLen = len(smt)
 			vc.solveOne(o, file, timeoutS, strict)
+			if o.Status == "proved" && os.Getenv("GOVC_KEEP_SMT") == "" {
+				// disk is limited: only the queries of undischarged obligations are kept (named in the replay file)
+				os.Remove(file)
+				o.SMT = ""
+			}
 		}(o)
 	}
 	wg.Wait()
@@ -121,6 +127,7 @@ func (vc *VC) solveCanaries(outDir string, par int) {
 			for mi, m := range members {
 				file := filepath.Join(outDir, fmt.Sprintf("canary_%d_%d.smt2", gi, mi))
 				os.WriteFile(file, []byte(m.SMT), 0o644)
+				defer os.Remove(file)
 				refuted := false
 				for _, s := range []solverSpec{solvers[0], solvers[2]} {
 					r := runSolver(context.Background(), s, file, 2)
